@@ -69,8 +69,8 @@ Obs(s) ==
 
 Mach(s) ==
   CASE s.kind = "op" -> MErr(s.op, s.a, s.b, s.p)
-    [] s.kind = "conv" -> MConvErr(s.a, ROne)
-    [] s.kind = "qsum" -> MQSumErr(s.a, s.b, ROne)
+    [] s.kind = "conv" -> MConvErr(s.a, FacRatio(s.ua, s.ub))
+    [] s.kind = "qsum" -> MQSumErr(s.a, s.b, FacRatio(s.ub, s.ua))
 
 FeatureTags(s) ==
   CASE s.kind = "op" -> Features(s.op, s.a, s.b, s.p)
@@ -82,15 +82,16 @@ FeatureTags(s) ==
 Tags(s) ==
   FeatureTags(s) \cup
   (IF Exact THEN DevTags(Obs(s), Mach(s), IF s.kind = "op" THEN "machine_off_ideal" ELSE "error_not_scaled")
-   ELSE IF (s.kind = "conv" /\ s.ua # s.ub /\ Uncertain(s.a)) \/ (s.kind = "qsum" /\ s.ua # s.ub /\ Uncertain(s.b))
+   ELSE IF ((s.kind = "conv" /\ s.ua # s.ub /\ Uncertain(s.a)) \/ (s.kind = "qsum" /\ s.ua # s.ub /\ Uncertain(s.b)))
+           /\ ~Scaled
         THEN {"error_not_scaled"} ELSE {})
 
 Record(s) ==
   LET c == Class(s) IN
   [id |-> idx, kind |-> s.kind, op |-> s.op, side |-> s.side, a |-> s.a, b |-> s.b, p |-> s.p, ua |-> s.ua, ub |-> s.ub,
    cls |-> c, obs |-> IF c = "ok" THEN Obs(s) ELSE <<>>,
-   mach |-> IF c = "ok" /\ (Exact \/ s.kind # "op") THEN Mach(s) ELSE None,
-   machknown |-> c = "ok" /\ (Exact \/ s.kind # "op"),
+   mach |-> IF c = "ok" /\ (Exact \/ (s.kind # "op" /\ ~Scaled)) THEN Mach(s) ELSE None,
+   machknown |-> c = "ok" /\ (Exact \/ (s.kind # "op" /\ ~Scaled)),
    tags |-> IF c = "ok" THEN Tags(s) ELSE {}]
 
 EmitInv == (stage = 2 /\ Emit) => PrintT(ToJson(Record(sc)))
@@ -114,8 +115,11 @@ Lemmas ==
           /\ RMul(RMul(a.e, FacRatio(sc.ua, sc.ub)), FacRatio(sc.ub, sc.ua)) = a.e
           /\ obs[2].q = RDiv(RMul(RInt(100), obs[1].q), RMul(a.v, FacRatio(sc.ua, sc.ub)))
     \* the unscaled error of the code is off exactly when the factor is not 1
-    /\ (sc.kind = "conv" /\ Uncertain(a) /\ ~RIsZero(a.e)) =>
+    /\ (sc.kind = "conv" /\ Uncertain(a) /\ ~RIsZero(a.e) /\ ~Scaled) =>
           (("error_not_scaled" \in Tags(sc)) <=> FacRatio(sc.ua, sc.ub) # ROne)
+    \* a repaired deviation is transcribed as the ideal
+    /\ (Scaled /\ sc.kind # "op") => "error_not_scaled" \notin Tags(sc)
+    /\ ("error_sign" \in FixedDevs) => "error_sign" \notin Tags(sc)
 
 Spec == Init /\ [][Next]_vars
 =============================================================================
